@@ -46,6 +46,7 @@ class Impl:
             from fim.slivers.maintenance_mode import MaintenanceInfo, MaintenanceEntry, MaintenanceState
             from fim.graph.abc_property_graph import ABCPropertyGraph
             from fim.graph.networkx_property_graph import NetworkXPropertyGraph, NetworkXGraphImporter
+            from fim.graph.networkx_property_graph_disjoint import NetworkXPropertyGraphDisjoint, NetworkXGraphImporterDisjoint
             from fim.slivers.json import JSONSliver
             import fim.user as fu
             import ipaddress, enum
@@ -867,7 +868,14 @@ class Deep(Stream):
         if is_err(d):
             o['via_dict'] = o['via_json'] = d
         else:
-            o['via_dict'] = observing(lambda: abs_tree(getattr(G, 'build_deep_%s_sliver_from_dict' % fam)(props=copy.deepcopy(d))))
+            snapshot = copy.deepcopy(d)
+            conv = getattr(G, 'build_deep_%s_sliver_from_dict' % fam)
+            # the SAME dictionary object is converted twice: the caller's dictionary must not be modified and
+            # the second conversion must give what the first gave
+            o['via_dict'] = observing(lambda: abs_tree(conv(props=d)))
+            o['dict_modified'] = (d != snapshot)
+            o['via_dict_again'] = observing(lambda: abs_tree(conv(props=d)))
+            d = snapshot
 
             def via_json():
                 s = I.JSONSliver.sliver_to_json(sl)
@@ -899,6 +907,50 @@ class Deep(Stream):
             finally:
                 imp.delete_all_graphs()
         o['via_graph'] = observing(via_graph)
+
+        def via_disjoint():
+            """the per-graph (disjoint) in-memory backend, in a graph where a node that is not the newest was
+            removed before: the sliver must come back, and what was in the graph must be untouched"""
+            imp = I.NetworkXGraphImporterDisjoint()
+            try:
+                imp.delete_all_graphs()
+            except Exception:
+                pass
+            g = I.NetworkXPropertyGraphDisjoint(graph_id='c02-disjoint', importer=imp)
+            try:
+                g.add_node(node_id='filler-A', label=G.CLASS_NetworkNode, props={'Name': 'fillerA', 'Type': 'Server'})
+                g.add_node(node_id='filler-B', label=G.CLASS_NetworkNode, props={'Name': 'fillerB', 'Type': 'Server', 'Site': 'S'})
+                g.add_node(node_id='filler-C', label=G.CLASS_Component, props={'Name': 'fillerC', 'Type': 'GPU', 'Model': 'm'})
+                g.add_link(node_a='filler-B', rel=G.REL_HAS, node_b='filler-C')
+                g.delete_node(node_id='filler-A')          # not the most recently added node
+                before = abs_tree(g.build_deep_node_sliver(node_id='filler-B'))
+                if k == 'node':
+                    g.add_network_node_sliver(sliver=sl)
+                elif k == 'service':
+                    g.add_network_service_sliver(parent_node_id=None, network_service=sl)
+                elif k == 'interface':
+                    g.add_interface_sliver(parent_node_id=None, interface=sl)
+                elif k == 'link':
+                    g.add_network_link_sliver(lsliver=sl, interfaces=[])
+                else:
+                    g.add_component_sliver(parent_node_id='filler-B', component=sl)
+                back = abs_tree(getattr(g, 'build_deep_%s_sliver' % fam)(node_id=sl.node_id))
+                after = observing(lambda: abs_tree(g.build_deep_node_sliver(node_id='filler-B')))
+                frame = None
+                if is_err(after):
+                    frame = 'the node filler-B that was in the graph can no longer be rebuilt: ' + after['err']
+                else:
+                    if k == 'component':          # the new component is the only change under its parent
+                        after['c'] = [c for c in (after['c'] or []) if c['id'] != sl.node_id]
+                    if json.dumps(after, sort_keys=True) != json.dumps(before, sort_keys=True):
+                        frame = 'the node filler-B that was in the graph changed'
+                return {'back': back, 'frame': frame}
+            finally:
+                try:
+                    imp.delete_all_graphs()
+                except Exception:
+                    pass
+        o['via_disjoint'] = observing(via_disjoint)
         return o
 
     def to_coq(self, case, o):
@@ -922,6 +974,26 @@ class Deep(Stream):
             sub = []
             diff_tree(o['t'], r, route, route + ':' + case['k'], sub)
             devs += sub
+        if o.get('dict_modified'):
+            devs.append((None, 'dict route: the conversion modified the dictionary it was given'))
+        r2 = o.get('via_dict_again')
+        if r2 is not None and not is_err(o['via_dict']):
+            if is_err(r2):
+                devs.append((None, 'dict route: converting the same dictionary a second time raised ' + r2['err']))
+            elif json.dumps(r2, sort_keys=True) != json.dumps(o['via_dict'], sort_keys=True):
+                sub = []
+                diff_tree(o['via_dict'], r2, 'dict', 'dict(second conversion of the same dictionary):' + case['k'], sub)
+                devs += sub or [(None, 'dict route: the second conversion of the same dictionary differs')]
+        dj = o.get('via_disjoint')
+        if dj is not None:
+            if is_err(dj):
+                devs.append((None, 'disjoint backend, after a removal: writing / rebuilding raised %s %s' % (dj['err'], dj.get('msg', ''))))
+            else:
+                sub = []
+                diff_tree(o['t'], dj['back'], 'graph', 'disjoint-graph(after a removal):' + case['k'], sub)
+                devs += sub
+                if dj['frame']:
+                    devs.append((None, 'disjoint backend, after a removal: ' + dj['frame']))
         return verdict(devs)
 
     def key(self, case, o):
